@@ -190,11 +190,12 @@ def _(c):
 # ---------------------------------------------------------------------------------------------
 
 def _grid_interp(tier, rng):
-    """orders 2..12 x table lengths {order, order+1, order+3, 50} x uniform / +-20 % jittered abscissae x queries: every node,
+    """orders 2..12 x table lengths {order, order+1, order+3, 50} x uniform / +-20 % jittered / slowly breathing (steps 1 + 0.3 sin(2 pi i / n): mildly non-uniform,
+    but the nodes drift several steps away from an even grid) abscissae x queries: every node,
     first and last interval mid-points, a middle point, just outside both ends; polynomial of degree order-1 with seeded coefficients"""
     for order in range(2, 13):
         for n in (order, order + 1, order + 3, 50):
-            for jit in (0, 1):
+            for jit in (0, 1, 2):
                 yield {"order": order, "n": n, "jitter": jit, "seed": order * 100 + n + jit}
 
 
@@ -207,6 +208,8 @@ def _(c):
     order, n = c.integer("order"), c.integer("n")
     rng = random.Random(c.integer("seed"))
     xs = np.array([i + (rng.uniform(-0.2, 0.2) if c.integer("jitter") else 0.0) for i in range(n)], dtype=float)
+    if c.integer("jitter") == 2:
+        xs = np.concatenate([[0.0], np.cumsum([1 + 0.3 * math.sin(2 * math.pi * i / n) for i in range(n - 1)])])
     # coefficients in the Newton-like basis centred in the table to keep conditioning reasonable
     coef = [rng.uniform(-1, 1) for _ in range(order)]
     xc, sc = xs.mean(), max(1.0, (xs[-1] - xs[0]) / 2)
@@ -220,6 +223,8 @@ def _(c):
     c.ensure("linear_nodes", all(abs(g(t) - y) <= 1e-12 * max(1, abs(y)) for t, y in zip(xs, ys)))
     mid = (xs[0] + xs[1]) / 2
     c.ensure("linear_chord", abs(g(mid) - (ys[0] + ys[1]) / 2) <= 1e-12 * max(1, abs(ys[0])))
+    # every interval, not only the first: the value at its middle is the middle of its chord
+    c.ensure("linear_chord_every_interval", all(abs(g((xs[k] + xs[k + 1]) / 2) - (ys[k] + ys[k + 1]) / 2) <= 1e-11 * max(1, abs(ys[k]), abs(ys[k + 1])) for k in range(n - 1)))
     for fn in (f, g):
         for q in (xs[0] - 1e-9, xs[-1] + 1e-9):
             c.ensure("refused_outside", c.raises(ValueError, lambda: fn(q)))
